@@ -123,6 +123,9 @@ pub enum Dmg {
     DoubleFlip(usize, usize),
     /// flip inside a frame, then repair CRC-8 (if in the header) and CRC-16
     FlipRepaired(usize),
+    /// `len` bytes from `at` read back as all ones (an erased flash page, a stuck bus): every length,
+    /// count and offset field it covers takes its largest value
+    Ones(usize, usize),
 }
 
 pub fn apply(item: &Item, d: &Dmg) -> Vec<u8> {
@@ -140,6 +143,12 @@ pub fn apply(item: &Item, d: &Dmg) -> Vec<u8> {
         Dmg::DoubleFlip(a, c) => {
             b[a >> 3] ^= 0x80 >> (a & 7);
             b[c >> 3] ^= 0x80 >> (c & 7);
+        }
+        Dmg::Ones(at, len) => {
+            let e = (at + len).min(b.len());
+            for x in &mut b[at.min(e)..e] {
+                *x = 0xFF;
+            }
         }
         Dmg::FlipRepaired(bit) => {
             b[bit >> 3] ^= 0x80 >> (bit & 7);
@@ -682,6 +691,19 @@ fn run_with(ctx: &mut Ctx, generator: bool) -> R {
     for n in (0..item.bytes.len()).step_by(stride) {
         coords.push(Dmg::Trunc(n));
     }
+    if !ctx.is("C05") {
+        // all-ones runs: 8 bytes at every byte offset of the metadata (each field is covered exactly at
+        // some offset), 16-byte sectors over the whole file
+        for at in (0..a).step_by(stride) {
+            coords.push(Dmg::Ones(at, 8));
+        }
+        for i in 0..item.bytes.len().div_ceil(16) {
+            coords.push(Dmg::Ones(i * 16, 16));
+        }
+        for at in (0..a.saturating_sub(2)).step_by(stride.max(3)) {
+            coords.push(Dmg::Ones(at, 3));
+        }
+    }
     if !ctx.is("C05") || thorough {
         for i in 0..item.bytes.len().div_ceil(16) {
             if ctx.is("C05") && i * 16 < a {
@@ -725,6 +747,7 @@ fn run_with(ctx: &mut Ctx, generator: bool) -> R {
             Dmg::FlipRepaired(_) => probe("dmg_flip_with_checksums_repaired"),
             Dmg::DoubleFlip(..) => probe("dmg_double_flip"),
             Dmg::ZeroSector(_) => probe("dmg_zero_sector"),
+            Dmg::Ones(..) => probe("dmg_all_ones_run"),
         }
         match ctx.prop.as_str() {
             "C04" => {
